@@ -304,6 +304,66 @@ def m_vec_retain(it, st, fr, t, args, ga):
     return I.UnitV()
 
 
+def m_vec_is_full(it, st, fr, t, args, ga):
+    c = _cont(it, st, args[0])
+    cap = c.cap if c.cap is not None else _cap_from(it, ga, fr)
+    if cap is None:
+        return I.BoolV(B(('sym', st.fresh_name('is_full'))))
+    return I.BoolV(cmp_term('Ge', c.len, cap))
+
+
+def m_vec_capacity(it, st, fr, t, args, ga):
+    c = _cont(it, st, args[0])
+    cap = c.cap if c.cap is not None else _cap_from(it, ga, fr)
+    if cap is None:
+        raise I.InterpError('Vec capacity unknown')
+    return I.Num(cap, 'usize')
+
+
+def m_vec_remove(it, st, fr, t, args, ga):
+    c = _cont(it, st, args[0])
+    i = _num(args[1])
+    ok = st.ctx.decide(cmp_term('Lt', i.term, c.len))
+    key = 'vec-remove@%s#%s' % (fr.fn['path'], it.site_ordinal(fr, fr.bb))
+    detail = 'remove(%r) with len %r' % (i.term, c.len)
+    if ok is False:
+        st.obligations.append(I.Obligation('bounds', fr.fn['path'], t['span'], detail, 'violated', key))
+        return ('panic', 'Vec::remove index out of bounds')
+    st.obligations.append(I.Obligation('bounds', fr.fn['path'], t['span'], detail, 'discharged' if ok else 'unknown', key))
+    if ok is None:
+        st.ctx.assume(cmp_term('Lt', i.term, c.len))
+    ety = c.elem_ty or {'k': 'uint', 'n': 'u8'}
+    v = _elem_value(it, st, c, i.term)
+    c.term = ('remove', c.term, i.term)
+    c.len = c.len - 1
+    return v
+
+
+def m_vec_pop(it, st, fr, t, args, ga):
+    c = _cont(it, st, args[0])
+
+    def some_(it2, s2, f2):
+        c2 = _cont(it2, s2, it2.operand(s2, f2, t['args'][0]))
+        v = _elem_value(it2, s2, c2, c2.len - 1)
+        c2.term = ('pop', c2.term)
+        c2.len = c2.len - 1
+        return some(v)
+
+    def none_(it2, s2, f2):
+        return none()
+    return ('fork', [(cmp_term('Gt', c.len, 0), some_), (cmp_term('Eq', c.len, 0), none_)])
+
+
+def m_range_contains(it, st, fr, t, args, ga):
+    r = it.deref(st, args[0]) if isinstance(args[0], I.RefV) else args[0]
+    x = it.deref(st, args[1]) if isinstance(args[1], I.RefV) else args[1]
+    if not isinstance(r, I.StructV) or not isinstance(x, I.Num) or 'start' not in r.names:
+        return I.BoolV(B(('sym', st.fresh_name('contains'))))
+    lo, hi = r.get('start').term, r.get('end').term
+    upper = 'Le' if r.path.endswith('RangeInclusive') else 'Lt'
+    return I.BoolV(band(cmp_term('Ge', x.term, lo), cmp_term(upper, x.term, hi)))
+
+
 def m_vec_deref(it, st, fr, t, args, ga):
     c = _cont(it, st, args[0])
     return I.ContV('slice', c.term, length=c.len, elem_ty=c.elem_ty, extra=dict(c.extra))
@@ -389,6 +449,11 @@ def _opt_ref_num(it, st, c, fname):
     by_value = bool(c.extra.get('by_value')) if c.extra else False
 
     def some_(it2, s2, f2):
+        if ety.get('k') not in ('int', 'uint', 'float'):
+            if fname != 'last':
+                raise I.InterpError('%s over a sequence of non-numeric elements' % fname)
+            v = _elem_value(it2, s2, c, c.len - 1)
+            return some(v if by_value else I.RefV(s2.new_cell(v)))
         tm = select_term(fname, c.term, c.len, s2.ctx, ety)
         if by_value:
             return some(I.Num(tm, ety.get('n', 'u8')))
@@ -1050,6 +1115,12 @@ def registry():
         'core::option::Option::<&T>::copied': m_option_copied,
         'core::option::Option::<&T>::cloned': m_option_copied,
         'heapless::vec::Vec::<T, N>::as_slice': m_vec_deref,
+        'heapless::vec::Vec::<T, N>::is_full': m_vec_is_full,
+        'heapless::vec::Vec::<T, N>::capacity': m_vec_capacity,
+        'heapless::vec::Vec::<T, N>::remove': m_vec_remove,
+        'heapless::vec::Vec::<T, N>::pop': m_vec_pop,
+        'core::ops::RangeInclusive::<Idx>::contains': m_range_contains,
+        'core::ops::Range::<Idx>::contains': m_range_contains,
         'heapless::vec::Vec::<T, N>::iter': m_vec_deref,
         "<core::slice::Iter<'a, T> as core::iter::Iterator>::fold": m_fold,
     }
